@@ -169,6 +169,9 @@ def make_definition(world, faults=()):
             kw[pkey] = world["processes"][s["process"]]
         if s["lt"] is not None:
             kw["lifetime_model_class"] = LT[s["lt"]]
+        elif (alias + k) % 2:
+            kw["lifetime_model_class"] = None  # every field written out, as when definitions come from table records
+            kw["solver"] = "manual"
         if s["cls"] == "stockdriven":
             kw["solver"] = s["solver"]
         hit = lambda name: name in fl and k == fl[name]["k"] % len(world["stocks"])
